@@ -117,9 +117,23 @@ class Change:  # ChangeSet
 
     def _replace(self, filename, range, new_contend):
         source = self.change_recorder.get_source(filename)
-        source.replacements.append(
-            Replacement(range=range, text=new_contend, change_id=self.change_id)
-        )
+        new = Replacement(range=range, text=new_contend, change_id=self.change_id)
+
+        def inside(inner, outer):
+            return (
+                outer.range.start < inner.range.start
+                and inner.range.end < outer.range.end
+            )
+
+        # the change of an inner snapshot is obsolete
+        # if the code which contains this snapshot is replaced or deleted
+        if any(inside(new, other) for other in source.replacements):
+            return
+
+        source.replacements = [
+            other for other in source.replacements if not inside(other, new)
+        ]
+        source.replacements.append(new)
         source._check()
 
 
